@@ -1461,6 +1461,13 @@ def generate(prop, seed, run, overrides=None):
                 again.pop('variants', None)
                 if rng.random() < 0.5 and 'plan' in again:
                     again['plan'] = gen_plan(g)
+                if rng.random() < 0.4:
+                    # ... or a near-duplicate (other tables / tokenizer /
+                    # threshold): stale entries of the aborted call differ
+                    # from what this call needs
+                    sib = gen_sibling(g, base)
+                    if sib is not None:
+                        again = sib
                 case['history'].append(fa)
                 case['history'].append(again)
     for _, fs in g.filters:
